@@ -305,7 +305,13 @@ def contract_driver(program, c, findings=()):
         env2["result"] = result
         env2["exc"] = exc
         for n, pred in ensures:
-            ctx.oblige(c.name + "." + n, ops.truthy(it, call_by_name(it, pred, env2)), info={"outcome": label})
+            try:
+                val = ops.truthy(it, call_by_name(it, pred, env2))
+            except PyRaise as e:
+                # the postcondition cannot even be evaluated on this post-state (wrong shape): it fails
+                ctx.oblige(c.name + "." + n, False, info={"outcome": label, "postcondition_raised": e.type_name})
+                continue
+            ctx.oblige(c.name + "." + n, val, info={"outcome": label})
         if not refs_f and exc is not None and c.raises is not None and exc not in c.raises:
             ctx.oblige(c.name + ".noexc", False, info={"raised": exc})
         return label
